@@ -164,7 +164,8 @@ class AbstractTraceIngest:
             # flex traces have aiu pid reflecting their rank and no other source for dev/rank
             if self.rank_pid == -1:
                 self.rank_pid = event["pid"]
-            event[the_args]["rank"] = self.rank_pid
+            # metadata / instant events need not carry an args section of their own
+            event.setdefault(the_args, {})["rank"] = self.rank_pid
             if self.rank_pid >= 0:
                 event["pid"] = self.rank_pid
         return event
